@@ -232,6 +232,12 @@ func c12Run(c *Ctx) {
 		}
 	}
 	reduced = append(reduced, "z:x*", "a:", "a")
+	// new paths that run through keys found inside an earlier projected value (maps below lists included)
+	for _, o := range []string{"a", "b", "k"} {
+		for _, nw := range []string{"x.k", "x.a.y", "x.k.y", "x.b.k"} {
+			reduced = append(reduced, o+":"+nw)
+		}
+	}
 	run := func(t *T, pairs []string) {
 		if !c.Mine() {
 			return
